@@ -10,7 +10,7 @@
    waits for process-wide quiescence: a call that has not returned then is parked for good). Not modelled:
    Go scheduler fairness, net.Conn deadlines (a Write blocked on a silent peer ends only with the connection). *)
 From Coq Require Import NArith List Bool.
-From LLRP Require Import Client.Types Client.Model Client.ModelX Client.InvC08 Client.InvC09 Client.C09Proofs Client.Handoff Client.C09Flood.
+From LLRP Require Import Client.Types Client.Model Client.ModelX Client.InvC08 Client.InvC09 Client.C09Proofs Client.Handoff Client.C09Flood Client.C09Api.
 Import ListNotations.
 Open Scope N_scope.
 
@@ -23,6 +23,23 @@ Theorem C09_no_caller_stuck : forall cfg s c p,
   lookup c (callers (step cfg s (SeeClosed c))) = Some (Done (req_of p) RErrClosed).
 Proof. exact see_closed_releases. Qed.
 Print Assumptions C09_no_caller_stuck.
+
+(* the same, spelled out per kind of call and per blocking position: SendMessage / SendFor / Shutdown (gate + reply), SendNoWait
+   (gate, no reply), the internal send (no gate) — waiting at the ready gate, queued for a write loop that may be parked after
+   CloseConnection, stuck in a Write or gone, or holding a token and waiting for the reply: on a closed client the <-c.done case
+   of the select it sits in is enabled and returns ErrClientClosed. The request's flags play no part. *)
+Theorem C09_every_send_released_on_closed_client : forall cfg s c p r,
+  closed s = true -> lookup c (callers s) = Some p -> blocked_at p r ->
+  caller_result (step cfg s (SeeClosed c)) c = Some RErrClosed.
+Proof. exact every_send_released_on_closed_client. Qed.
+Print Assumptions C09_every_send_released_on_closed_client.
+
+Theorem C09_sendnowait_released_on_closed_client : forall cfg s c typ len tag,
+  closed s = true ->
+  (lookup c (callers s) = Some (Gate (sendnowait_req typ len tag)) \/ lookup c (callers s) = Some (Queued (sendnowait_req typ len tag))) ->
+  caller_result (step cfg s (SeeClosed c)) c = Some RErrClosed.
+Proof. exact sendnowait_released_on_closed_client. Qed.
+Print Assumptions C09_sendnowait_released_on_closed_client.
 
 (* a send started after close is not Done yet only until it looks at done: its first select can take
    <-c.done at once, and that returns ErrClientClosed *)
